@@ -148,14 +148,21 @@ impl Prop for C01 {
             len: long_token_inputs(tier.pick(14, 17)).len() as u64,
             chunk: 200,
             timeout: Duration::from_secs(600),
-            what: "one long token per input: 38 shapes (digit runs, fractions with many zeros, names, strings, operator-character runs, whitespace runs, separators) at every length 1..70 and at 2^k-1, 2^k, 2^k+1".into(),
+            what: "one long token per input: 39 shapes (digit runs, fractions with many zeros, names, strings, operator-character runs, whitespace runs, separators) at every length 1..70 and at 2^k-1, 2^k, 2^k+1".into(),
+        });
+        stages.push(Stage {
+            name: "dev-long-tokens".into(),
+            len: long_token_inputs(10).len() as u64,
+            chunk: 400,
+            timeout: Duration::from_secs(900),
+            what: "the long-token inputs up to 2^10 and the malformed-number family again in the dev build of the engine (overflow checks and debug assertions on)".into(),
         });
         stages.push(Stage {
             name: "after-odd-registration".into(),
-            len: 8,
+            len: 11,
             chunk: 1,
-            timeout: Duration::from_secs(300),
-            what: "fresh process: one register_infix_op call with a precedence outside the documented domain (0, negative, > 10^9, i32 extremes; what that call does is its own business), then every string of <= 2 fragments".into(),
+            timeout: Duration::from_secs(60),
+            what: "fresh process: one register_infix_op call with a precedence outside the documented domain (0, negative, > 10^9, i32 extremes; what that call does is its own business), then every string of <= 2 fragments; cases 8-10: `?`, `:` and `not` registered as ordinary infix operators, then every sequence of <= 5 tokens over {1, x, +, *, ?, :, (, ), not, -}".into(),
         });
         let sw = sweeps(tier);
         Plan {
@@ -209,12 +216,27 @@ impl Prop for C01 {
             out.count("transitions", b - a);
             return;
         }
-        if stage == sw.len() + 3 {
+        if stage == sw.len() + 4 {
             use expression_engine::{InfixOpAssociativity, InfixOpType};
             let precs = [0, -1, -110, i32::MIN, i32::MAX, 1 << 30, 1_000_000_001, 1_073_741_824];
             let small = Strings::new(FRAGMENTS, 2);
             for i in a..b {
                 out.at(i);
+                if i >= 8 {
+                    // grammar punctuation / keywords registered as ordinary infix operators
+                    let word = ["?", ":", "not"][(i - 8) as usize];
+                    let r = engine::guarded(|| {
+                        expression_engine::register_infix_op(word, 115, InfixOpType::CALC, InfixOpAssociativity::LEFT, std::sync::Arc::new(|a, _| Ok(a)));
+                        Ok(())
+                    });
+                    let name = format!("after-odd-registration[{:?} as infix operator -> {}]", word, r.class());
+                    let seqs = TokenSeqs { alphabet: vec!["1", "x", "+", "*", "?", ":", "(", ")", "not", "-"], max_len: 5 };
+                    for k in 0..seqs.len() {
+                        check_string(&seqs.spaced(k), &name, out);
+                    }
+                    out.nontrivial.insert(hash64(&name));
+                    continue;
+                }
                 let p = precs[i as usize % precs.len()];
                 let r = engine::guarded(|| {
                     expression_engine::register_infix_op("zzodd", p, InfixOpType::CALC, InfixOpAssociativity::LEFT, std::sync::Arc::new(|a, _| Ok(a)));
@@ -229,18 +251,30 @@ impl Prop for C01 {
             out.count("states", b - a);
             return;
         }
-        if stage == sw.len() + 2 {
-            let inputs = long_token_inputs(tier.pick(14, 17));
+        if stage == sw.len() + 2 || stage == sw.len() + 3 {
+            let dev = stage == sw.len() + 3;
+            if dev != cfg!(debug_assertions) {
+                out.fail("machinery:wrong-build-profile", "dev-long-tokens|profile".to_string(), format!("stage {} ran in a binary with debug_assertions={}", stage, cfg!(debug_assertions)));
+                return;
+            }
+            let inputs = long_token_inputs(if dev { 10 } else { tier.pick(14, 17) });
+            if a == 0 {
+                // (once) the malformed-number family of C09, alone and inside an expression
+                for t in super::c09::invalid_literals() {
+                    check_string(&t, if dev { "dev-long-tokens" } else { "long-tokens" }, out);
+                    check_string(&format!("[1, {} + 2]", t), if dev { "dev-long-tokens" } else { "long-tokens" }, out);
+                }
+            }
             for i in a..b {
                 out.at(i);
                 let (name, text) = &inputs[i as usize];
                 // (the text can be 100 kB: the case is named by its shape and size)
                 let mut tmp = WorkerOut::default();
-                check_string(text, "long-tokens", &mut tmp);
+                check_string(text, if dev { "dev-long-tokens" } else { "long-tokens" }, &mut tmp);
                 let fails = std::mem::take(&mut tmp.fails);
                 out.merge(tmp);
                 for (k, (f, _)) in fails {
-                    out.fail(k, format!("long-tokens|{}", name), f.detail.chars().take(300).collect::<String>());
+                    out.fail(k, format!("{}|{}", if dev { "dev-long-tokens" } else { "long-tokens" }, name), f.detail.chars().take(300).collect::<String>());
                 }
                 out.nontrivial.insert(hash64(name));
             }
@@ -304,8 +338,11 @@ impl Prop for C01 {
         if stage == sw.len() {
             return show(&token_seqs(tier).spaced(i));
         }
-        if stage == sw.len() + 3 {
+        if stage == sw.len() + 4 {
             return format!("odd registration {}", i);
+        }
+        if stage == sw.len() + 3 {
+            return long_token_inputs(10)[i as usize].0.clone();
         }
         if stage == sw.len() + 2 {
             return long_token_inputs(tier.pick(14, 17))[i as usize].0.clone();
@@ -318,8 +355,11 @@ impl Prop for C01 {
         if stage <= sw.len() {
             return format!("{}:sweep-string", how);
         }
-        if stage == sw.len() + 3 {
+        if stage == sw.len() + 4 {
             return format!("{}:after-odd-registration", how);
+        }
+        if stage == sw.len() + 3 {
+            return format!("{}:long-token:{}", how, long_token_inputs(10)[i as usize].0.split(' ').next().unwrap_or(""));
         }
         if stage == sw.len() + 2 {
             return format!("{}:long-token:{}", how, long_token_inputs(tier.pick(14, 17))[i as usize].0.split(' ').next().unwrap_or(""));
